@@ -11,7 +11,12 @@ type segDataBuffer struct {
 	items    []recSegData
 }
 
+// nrItems returns the number of items. A track that has registered but not yet sent a media segment
+// has no buffer at all (nil), which counts as empty.
 func (c *segDataBuffer) nrItems() uint32 {
+	if c == nil {
+		return 0
+	}
 	return c._nrItems
 }
 
